@@ -19,7 +19,7 @@ for f in sorted(glob.glob(os.path.join(ROOT, "tools", "manifest.d", "*.py"))):
 # additions of the fourth session (seed rounds 6 and 7), appended to the level text
 ADDENDA = {
  "C01": "Session 4: KEYS/SCAN patterns are generated (1-5 atoms out of literal, *, ?, [set], [^set], [a-b]) next to the fixed list.",
- "C02": "Session 4: GETSET is also spelled SET k v GET; key names now include hash-tag, unicode and long names; response pools that start (almost) empty ((16,0), (64,1), (256,0), (256,2)) next to the tiny and the default ones.",
+ "C02": "Session 4: GETSET is also spelled SET k v GET and SETNX as one-pair MSETNX; key names now include hash-tag, unicode and long names; response pools that start (almost) empty ((16,0), (64,1), (256,0), (256,2)) next to the tiny and the default ones.",
  "C04": "Session 4: the scale class (1 case in 400) also writes to sockets that take 1000..65536 bytes per write, has frames around 256 KiB and pipelines of 70..1100 medium replies.",
  "C05": "Session 4: interferer Permute (rearrangements that keep type, size and the multiset of strings of the watched value); sub-check long_bodies (enumerated transaction lengths 255..16385, thorough 100001: every command +QUEUED, EXEC returns exactly n results equal to consecutive execution).",
  "C06": "Session 4: scale class (1 case in 30): a short program, 1100/4200/5200 filler writes at one node (Bulk step), a short program; late delivery of what the first part left in flight.",
@@ -27,11 +27,11 @@ ADDENDA = {
  "C08": "Session 4: every third operation writes the same bytes (a write equal to what is held is still a write with its own stamp).",
  "C09": "Session 4: append faults with partial progress reported as Io / DiskFull (not only PartialWrite).",
  "C10": "Session 4: entry sizes up to 16 MiB+1; sub-check rejected_appends (append calls rejected without a byte written, two logs written from one thread: each log recovers exactly the entries whose append returned Ok).",
- "C11": "Session 4: every store call of a recovery is hit by a time-out, NotFound (objects the manifest names), a flipped bit or a truncation (segment/checkpoint objects): recover()/recover_with_wal() must fail or return exactly the full merge.",
+ "C11": "Session 4: every store call of a recovery is hit by a time-out, NotFound (objects the manifest names), a flipped bit or a truncation (segment/checkpoint objects): recover()/recover_with_wal() must fail or return exactly the full merge; half of the arrangements produce their checkpoint object through CheckpointManager::create_checkpoint.",
  "C12": "Session 4: sub-check large_values (enumerated: one update of 64 KiB+1 / 1 MiB+1 / 4 MiB+1 / 16 MiB+1, thorough 64 MiB+1, as a long string or a wide hash, through three confirmed flushes and three compaction passes with recovery after each); write_buffer also runs two overlapping flushes on the shared buffer.",
  "C13": "Session 4: layouts carry re-delivered exact copies of earlier updates in later segments, and leftovers of failed operations (an unreferenced object under the next segment key: valid copy / half / garbage).",
  "C19": "Session 4: write-burst batches up to 5000 deltas in router_new; sub-check router_lifecycle (one long-lived selective router, peers learnt and forgotten between batches, senders outside the ring).",
- "C20": "Session 4: the scenario harness draws absolute-time commands (PEXPIRETIME, EXPIRETIME, PEXPIREAT, SET PXAT).",
+ "C20": "Session 4: the scenario harness draws absolute-time commands (PEXPIRETIME, EXPIRETIME, PEXPIREAT, SET PXAT); harness crash_sim drives CrashSimulator directly with coarse ticks (several recoveries due in one advance_time call).",
 }
 for _pid, _t in ADDENDA.items():
     if _pid in CHECKS:
